@@ -37,6 +37,11 @@ func c11Gen(r *driver.Rand, thorough bool) *driver.Plan {
 	p.Fn = r.Intn(60)
 	if stage == "Emit" {
 		p.IntervalMs = driver.Pick(r, 1, 10, 1000)
+		if r.Chance(1, 5) {
+			// frequencies that are not whole milliseconds
+			p.IntervalMs = driver.Pick(r, 0, 1, 2)
+			p.SetX("interval_us", driver.Pick(r, 1, 250, 500, 999))
+		}
 		if r.Chance(1, 3) {
 			p.Mode = "try"
 			for i := 0; i < take+3; i++ {
@@ -134,7 +139,7 @@ func c11Final(e *driver.Env) {
 		return
 	}
 	if p.Stage == "Emit" {
-		freq := time.Duration(p.IntervalMs) * time.Millisecond
+		freq := planInterval(p)
 		// C11.b: the function is called at most once per tick …
 		for i := 1; i < len(s.Calls.List); i++ {
 			if d := s.Calls.List[i].VT - s.Calls.List[i-1].VT; d < freq {
